@@ -6,9 +6,753 @@ import vlib, gen
 
 
 def run_node(prop, spec, seed, tier, known, ev, results):
-    ev['coverage']['node_support'] = 'not built yet'
+    """Node-based support for the tree properties: differential execution (C01), compilation by V8
+    (C08), the package-level wrapper (C12)"""
+    node = find_node()
+    if not node:
+        ev['coverage']['node_support'] = 'skipped: node not found'
+        return [], {}, 'skipped'
+    kind = spec.get('node')
+    if kind == 'diffexec':
+        return node_diffexec(node, prop, seed, tier, known, ev)
+    if kind == 'compile':
+        return node_compile(node, prop, seed, tier, known, ev, results)
+    if kind == 'wrapper':
+        return node_wrapper(node, prop, seed, tier, known, ev, results)
     return [], {}, ''
 
 
+def _node_job(node, script, job, flags=()):
+    import tempfile
+    with tempfile.NamedTemporaryFile('w', suffix='.json', delete=False, dir=os.path.join(vlib.VERIF, 'replays')) as f:
+        json.dump(job, f)
+        jobfile = f.name
+    try:
+        p = subprocess.run([node] + list(flags) + [os.path.join(vlib.VERIF, 'js', script), jobfile], stdout=subprocess.PIPE,
+                           stderr=subprocess.PIPE, text=True, timeout=3600, env=dict(os.environ, VERIF_REPO=vlib.REPO))
+    finally:
+        os.unlink(jobfile)
+    if p.returncode != 0 or not p.stdout.strip():
+        raise vlib.BuildError('node %s failed: %s' % (script, (p.stderr or '')[-800:]))
+    return json.loads(p.stdout)
+
+
+def node_diffexec(node, prop, seed, tier, known, ev):
+    n = 400 if tier == 'quick' else 8000
+    reqs = gen.exec_requests(seed ^ 0xE8EC, n)
+    for q in reqs:
+        q['ast'] = False
+    recs = vlib.run_harness(reqs)
+    jobs, idx = [], {}
+    for q, rec in zip(reqs, recs):
+        if rec.get('outcome') == 'ok' and rec.get('status') == 'Modified':
+            jobs.append({"id": q['id'], "input": q['src'], "output": rec['content'], "hooks": "identity"})
+            idx[q['id']] = (q, rec)
+    violations, known_hits = [], {}
+    ran = events = 0
+    from concurrent.futures import ThreadPoolExecutor
+    chunks = [jobs[i:i + 60] for i in range(0, len(jobs), 60)]
+    with ThreadPoolExecutor(max_workers=8) as ex:
+        outs = list(ex.map(lambda ch: _node_job(node, 'diffexec.js', ch), chunks))
+    for out in outs:
+        for r in out:
+            q, rec = idx[r['id']]
+            if r.get('inputSyntaxError') or r.get('error'):
+                continue
+            ran += 1
+            events += r.get('events', 0)
+            if 'diff' in r:
+                cls = 'behaviour-differs-under-pass-through-hooks'
+                methods = (q['cfg'] or {}).get('csiMethods') or []
+                plus_on = any(m.get('operator') and m.get('src') == 'plusOperator' for m in methods)
+                import re as _re
+                if _re.search(r'\.\.\.\(?(\d|true|false|null|/)', q['src']):
+                    cls = 'spread-of-a-non-iterable-literal-throws-after-later-arguments-were-evaluated'
+                elif not plus_on and ' + ' in q['src']:
+                    cls = 'sum-left-in-place-is-evaluated-after-hoisted-operands-when-plus-is-disabled'
+                kf = [x for x in known if x['cls'] == cls and x['property'] == prop]
+                (known_hits.setdefault((prop, cls), []).append((q, r['diff'])) if kf else
+                 violations.append(('%s:%s' % (prop, cls), q, rec, r['diff'])))
+    ev['coverage']['node_diffexec'] = {'programs_run': ran, 'events_compared': events, 'generated': n,
+                                       'what': 'input and rewritten output run in fresh V8 contexts with Proxy-observable free variables and identity hooks; '
+                                               'compared: outcome, full effect log in order, multiset of implicit coercions'}
+    return violations, known_hits, ''
+
+
+def node_compile(node, prop, seed, tier, known, ev, results):
+    jobs = []
+    lim = 600 if tier == 'quick' else 20000
+    for req, rec, v in results:
+        if rec.get('outcome') == 'ok' and rec.get('status') == 'Modified' and len(jobs) < lim:
+            kind = 'module' if (rec.get('in_ast') or {}).get('type') == 'Module' else 'script'
+            jobs.append({"id": req['id'], "input": req['src'], "output": rec['content'], "kind": kind})
+    idx = {q['id']: (q, r) for q, r, _ in results}
+    violations = []
+    compiled = 0
+    if jobs:
+        out = _node_job(node, 'compile.js', jobs, flags=['--experimental-vm-modules', '--no-warnings'])
+        for r in out:
+            if not r.get('inputOk'):
+                continue
+            compiled += 1
+            if not r.get('outputOk'):
+                q, rec = idx[r['id']]
+                violations.append(('C08:output-rejected-by-v8', q, rec, r.get('error')))
+    ev['coverage']['node_compile'] = {'outputs_compiled_by_v8': compiled, 'candidates': len(jobs)}
+    return violations, {}, ''
+
+
+def node_wrapper(node, prop, seed, tier, known, ev, results):
+    """main.js NonCacheRewriter/CacheRewriter around the real results: not modified -> the caller's text"""
+    picks = []
+    nm = mod = 0
+    for req, rec, v in results:
+        if rec.get('outcome') != 'ok':
+            continue
+        if rec.get('status') == 'NotModified' and nm < 150:
+            nm += 1
+            picks.append((req, rec))
+        elif rec.get('status') == 'Modified' and mod < 80:
+            mod += 1
+            picks.append((req, rec))
+    table = {}
+    hist = []
+    for i, (req, rec) in enumerate(picks):
+        table[native_key(req['src'], req['file'])] = {"result": {"content": rec['content'], "metrics": rec['metrics'], "literalsResult": rec.get('literals')}}
+        hist.append({"id": i, "steps": [{"file": req['file'], "code": req['src'], "lookups": []}]})
+    violations = []
+    if hist:
+        import tempfile
+        job = {"native": table, "histories": hist}
+        with tempfile.NamedTemporaryFile('w', suffix='.json', delete=False, dir=os.path.join(vlib.VERIF, 'replays')) as f:
+            json.dump(job, f)
+            jobfile = f.name
+        try:
+            p = subprocess.run([node, '-r', os.path.join(vlib.VERIF, 'js', 'preload.js'), os.path.join(vlib.VERIF, 'js', 'c11.js'), jobfile],
+                               stdout=subprocess.PIPE, stderr=subprocess.PIPE, text=True, timeout=1200, env=dict(os.environ, VERIF_REPO=vlib.REPO))
+        finally:
+            os.unlink(jobfile)
+        if p.returncode != 0:
+            raise vlib.BuildError('node wrapper job failed: ' + (p.stderr or '')[-500:])
+        res = json.loads(p.stdout)
+        for (req, rec), h in zip(picks, res['histories']):
+            if 'error' in h:
+                violations.append(('C12:package-wrapper-threw', req, rec, h['error'][:300]))
+                continue
+            st = h['steps'][0]
+            if rec['status'] == 'NotModified' and not st['sameText']:
+                violations.append(('C12:not-modified-result-is-not-the-callers-text', req, rec, ''))
+            if rec['status'] == 'Modified' and st['sameText']:
+                violations.append(('C12:modified-result-returns-the-input-text', req, rec, ''))
+    ev['coverage']['node_wrapper'] = {'results_through_main_js': len(picks), 'not_modified': nm, 'modified': mod}
+    return violations, {}, ''
+
+
+# ------------------------------------------------------------------------------------------ C13
+
+def run_mal(prop, spec, seed, tier, known, ev):
+    """totality: arbitrary text / file names / reader faults -> a result or an error, never a panic,
+    an abort or a hang (watchdog); the model agrees on the outcome class where the text parses"""
+    from collections import Counter
+    n = 2500 if tier == 'quick' else 40000
+    reqs = gen.mal_requests(seed, n)
+    results = vlib.pipeline(reqs)
+    violations, corr_fail = [], []
+    outcomes = Counter()
+    tags = Counter()
+    errkinds = Counter()
+    for req, rec, v in results:
+        oc = rec.get('outcome')
+        outcomes[oc] += 1
+        for t in req.get('tags', []):
+            tags[t] += 1
+        if oc == 'err':
+            e = rec.get('err', '')
+            errkinds['refused-name' if 'Variable name duplicated' in e else 'syntax' if ' x ' in e or 'error' in e.lower() or True else 'other'] += 1
+        if oc in ('panic', 'abort', 'hang', 'garbled'):
+            violations.append(('C13:' + oc, req, rec, (rec.get('panic') or rec.get('stderr') or '')[:300]))
+        co = v.get('corr')
+        if isinstance(co, dict):
+            for k, d in co.items():
+                if k in ('status', 'fuel'):
+                    corr_fail.append((k, req, rec, d))
+    nontrivial = sum(1 for req, rec, v in results if rec.get('outcome') == 'err' or 'ref' in ' '.join(req.get('tags', [])))
+    ev['coverage'].update({
+        'evaluations': len(results), 'distinct_nontrivial': nontrivial,
+        'rule': 'token-level mutations of generated programs, random text, odd file names, source-map references of every '
+                'kind (inline ok/bad base64/bad JSON/index map, external ok/missing/directory/denied/garbage, huge, empty) with '
+                'an in-memory FileReader injecting the faults; non-trivial = rejected text or a source-map reference present',
+        'outcome_histogram': dict(outcomes), 'error_kinds': dict(errkinds), 'tag_histogram': dict(tags.most_common(30)),
+        'samples': [{k: q.get(k) for k in ('id', 'file', 'src', 'files')} for q in reqs[3:5]],
+    })
+    return violations, {}, corr_fail
+
+
+# ------------------------------------------------------------------------------------------ C16
+
+def _result_key(rec):
+    lits = rec.get('literals')
+    if isinstance(lits, dict):
+        lits = sorted((l['value'], sorted((x['line'], x['column'], x.get('ident') or '') for x in l['locations'])) for l in lits.get('literals', []))
+    m = rec.get('metrics')
+    if isinstance(m, dict) and isinstance(m.get('propagationDebug'), dict):
+        m = dict(m, propagationDebug=sorted(m['propagationDebug'].items()))
+    return json.dumps([rec.get('outcome'), rec.get('status'), rec.get('content'), m, lits, rec.get('err')], sort_keys=True)
+
+
+def run_history(prop, spec, seed, tier, known, ev):
+    """random call histories (successful, not modified, syntax errors, cancelled, with and without
+    source-map comments) on several rewriter instances inside ONE process, each call compared with
+    the same call made alone in a fresh process"""
+    r = vlib.SplitMix64(seed)
+    n_hist = 40 if tier == 'quick' else 600
+    pool = []
+    base = gen.gen_requests(r.next(), 60, depth=2, cfg_mode='default')
+    for q in base:
+        pool.append(q['src'])
+    pool += ["function f(){ return a + b( }", "const __datadog_test_0 = 1; function f(){ return a + b(); }",
+             "function f(a){ return a + b(); }\n//# sourceMappingURL=data:application/json;base64,eyJ2ZXJzaW9uIjozLCJzb3VyY2VzIjpbIm9yaWcudHMiXSwibmFtZXMiOltdLCJtYXBwaW5ncyI6IkFBQUEifQ==",
+             "var x = 1;", "function f(){ return `a${b}` + 'some long literal value'; }", ""]
+    cfgs = [vlib.DEFAULT_CFG, dict(vlib.DEFAULT_CFG, localVarPrefix="other", chainSourceMap=True, comments=True),
+            {"localVarPrefix": "zz", "csiMethods": [{"src": "plusOperator", "operator": True}], "telemetryVerbosity": "OFF"},
+            dict(vlib.DEFAULT_CFG, localVarPrefix="first")]
+    violations = []
+    total = 0
+    distinct = set()
+    samples = []
+    for h in range(n_hist):
+        g = r.fork()
+        ln = 3 + g.below(10)
+        hist = []
+        for i in range(ln):
+            hist.append({"id": "h%d-%d" % (h, i), "cfg": g.choice(cfgs), "src": g.choice(pool),
+                         "file": g.choice(["a.js", "b.js", "dir/c.js"]), "ast": False, "fresh": g.chance(1, 8)})
+        recs = vlib.run_harness(hist)
+        # every call alone, each in its own process
+        alone = []
+        for q in hist:
+            alone.append(vlib.run_harness([dict(q, fresh=True)])[0])
+        for q, a, b in zip(hist, recs, alone):
+            total += 1
+            distinct.add(vlib.sha(q['src'] + json.dumps(q['cfg'], sort_keys=True) + q['file']))
+            if _result_key(a) != _result_key(b):
+                violations.append(('C16:result-depends-on-earlier-calls', {'history': [{k: x[k] for k in ('cfg', 'src', 'file', 'fresh')} for x in hist], 'call': q['id']},
+                                   a, 'in history: %s ... alone: %s' % (_result_key(a)[:300], _result_key(b)[:300])))
+                break
+        if h < 2:
+            samples.append([{k: x[k] for k in ('src', 'file')} for x in hist][:4])
+        # determinism: the same history again
+        recs2 = vlib.run_harness(hist)
+        if [_result_key(x) for x in recs] != [_result_key(x) for x in recs2]:
+            violations.append(('C16:not-deterministic', {'history': [{k: x[k] for k in ('cfg', 'src', 'file')} for x in hist]}, recs[0], 'same history, different results'))
+    ev['coverage'].update({
+        'evaluations': total, 'distinct_nontrivial': len(distinct), 'histories': n_hist,
+        'rule': 'random histories of 3-12 rewrite calls over a pool of sources (valid, not modified, syntax error, refused name, '
+                'with source-map comment) on up to 4 rewriter instances in one process; each call compared with the same call alone '
+                'in a fresh process and the whole history repeated; non-trivial = distinct (source, config, file)',
+        'samples': samples,
+    })
+    return violations, {}, []
+
+
+# ------------------------------------------------------------------------------------------ C05 (defaults, prologue)
+
+def gen_raw_config(r):
+    """any JSON a caller might pass: omitted / explicit / null / wrongly typed fields, unknown fields"""
+    k = r.below(12)
+    if k == 0:
+        return None
+    if k == 1:
+        return {}
+    if k == 2:
+        return "not an object"
+    if k == 3:
+        return {"chainSourceMap": "yes"}
+    if k == 4:
+        return {"csiMethods": [{"dst": "noSrc"}]}
+    if k == 5:
+        return {"csiMethods": [{"src": "trim", "operator": 1}]}
+    cfg = gen.gen_config(r, full=r.chance(1, 2))
+    if r.chance(1, 5):
+        cfg["unknownOption"] = 1
+    if r.chance(1, 6):
+        cfg["comments"] = None
+    if r.chance(1, 6):
+        cfg["telemetryVerbosity"] = None
+    if r.chance(1, 8) and cfg.get("csiMethods"):
+        cfg["csiMethods"][0]["dst"] = None
+    if r.chance(1, 10) and cfg.get("csiMethods"):
+        cfg["csiMethods"][0]["dst"] = r.choice(["delete", "$ok", "_x9", "a-b", "1abc", "x: 1, y", ""])
+    return cfg
+
+
 def run_extra(prop, spec, seed, tier, known, ev):
-    return [], []
+    n = 400 if tier == 'quick' else 6000
+    r = vlib.SplitMix64(seed ^ 0xC05)
+    reqs = [{"id": "cfg-%d" % i, "op": "config", "cfg": gen_raw_config(r.fork())} for i in range(n)]
+    recs = vlib.run_harness(reqs)
+    for q, rec in zip(reqs, recs):
+        rec.setdefault('cfg', q['cfg'])
+    verds = vlib.run_driver(recs, 'config')
+    violations, corr = [], []
+    explicit = 0
+    for q, rec, v in zip(reqs, recs, verds):
+        if rec.get('outcome') != 'ok':
+            violations.append(('C05:config-construction-failed', q, rec, rec.get('panic') or rec.get('err')))
+            continue
+        if (v.get('stats') or {}).get('explicit_prefix'):
+            explicit += 1
+        ch = v.get('checks')
+        if isinstance(ch, dict):
+            for k, d in ch.items():
+                violations.append((k, q, rec, d))
+        co = v.get('corr')
+        if isinstance(co, dict):
+            for k, d in co.items():
+                corr.append((k, q, rec, d))
+    ev['coverage']['config_cases'] = n
+    ev['coverage']['config_cases_with_random_prefix'] = n - explicit
+    return violations, corr
+
+
+# ------------------------------------------------------------------------------------------ C09 / C10
+
+def _vlq(n):
+    v = (-n << 1) | 1 if n < 0 else n << 1
+    out = ''
+    B = 'ABCDEFGHIJKLMNOPQRSTUVWXYZabcdefghijklmnopqrstuvwxyz0123456789+/'
+    while True:
+        d = v & 31
+        v >>= 5
+        if v:
+            d |= 32
+        out += B[d]
+        if not v:
+            return out
+
+
+def encode_map(tokens, sources, names, source_root=None):
+    """tokens: (genLine, genCol, srcIdx|None, srcLine, srcCol, nameIdx|None) sorted"""
+    lines = {}
+    for t in tokens:
+        lines.setdefault(t[0], []).append(t)
+    out = []
+    ps = pl = pc = pn = 0
+    for ln in range(max(lines) + 1 if lines else 0):
+        segs = []
+        pg = 0
+        for t in sorted(lines.get(ln, []), key=lambda t: t[1]):
+            s = _vlq(t[1] - pg)
+            pg = t[1]
+            if t[2] is not None:
+                s += _vlq(t[2] - ps) + _vlq(t[3] - pl) + _vlq(t[4] - pc)
+                ps, pl, pc = t[2], t[3], t[4]
+                if t[5] is not None:
+                    s += _vlq(t[5] - pn)
+                    pn = t[5]
+            segs.append(s)
+        out.append(','.join(segs))
+    m = {"version": 3, "sources": sources, "names": names, "mappings": ';'.join(out)}
+    if source_root is not None:
+        m["sourceRoot"] = source_root
+    return json.dumps(m)
+
+
+def layout_program(g):
+    """a modified program in a layout that stresses positions: multi-line operands, CRLF, non-ASCII"""
+    nl = g.choice(["\n", "\n", "\r\n"])
+    ind = g.choice(["", "  ", "\t"])
+    pre = g.choice(["", "// héllo wörld 日本\n", "/* é */ ", "'use strict';\n", "var ünï = 1;" + nl])
+    bodies = [
+        "function f(a, b) {%N%Ireturn a +%N%I%Ib(c,%N%I%I%Id);%N}",
+        "function f(a, b) {%N%Ilet x = `é${a}ü${b()}`;%N%Ix += a.trim(%N%I%Ib%N%I);%N%Ireturn x;%N}",
+        "class K {%N%Im(a) {%N%I%Ireturn a?.trim()%N%I%I%I.concat('é', a);%N%I}%N}",
+        "const f = (a, b) => a + b() + 'ü𝒳' + a;%Nfunction g(){ return String.prototype.trim.call(a) }",
+        "function f(o, s, i){%N%Io[i++] += s;%N%Iif (o + s) return s.substring(1 +%N%I%Ii);%N%Ielse return o.p +%N s;%N}",
+    ]
+    src = pre + g.choice(bodies).replace("%N", nl).replace("%I", ind)
+    return src
+
+
+def run_maps(prop, spec, seed, tier, known, ev):
+    n = 400 if tier == 'quick' else 6000
+    r = vlib.SplitMix64(seed ^ 0x909)
+    reqs = []
+    for i in range(n // 2):
+        g = r.fork()
+        reqs.append({"id": "lay-%d" % i, "cfg": dict(vlib.DEFAULT_CFG, comments=g.chance(1, 2)), "src": layout_program(g),
+                     "file": g.choice(["test.js", "dir/sub/file.js", "/abs/é/mod.js"]), "tags": ['layout']})
+    reqs += gen.gen_requests(r.next(), n - n // 2, cfg_mode='mixed')
+    for q in reqs:
+        q.update({"maps": True, "text_ast": True})
+        q['cfg'] = dict(q['cfg'] or {}, chainSourceMap=False)
+    results = vlib.pipeline(reqs, mode='maps')
+    return _collect(prop, spec, results, known, ev, 'modified files whose embedded map was decoded with the verified decoder: layout stress programs '
+                    '(multi-line operands, CRLF, non-ASCII, comments) and grammar-generated programs; non-trivial = a map with at least one token was checked')
+
+
+def gen_orig_map(g, src):
+    """an original map for `src`: tokens at random generated positions of the input text"""
+    lines = src.split('\n')
+    toks = []
+    nsrc = 1 + g.below(3)
+    sources = ["orig%d.ts" % k for k in range(nsrc)]
+    names = ["n%d" % k for k in range(g.below(4))]
+    for ln, text in enumerate(lines):
+        if g.chance(1, 5):
+            continue
+        cols = sorted(set(g.below(max(1, len(text))) for _ in range(1 + g.below(6))))
+        if g.chance(2, 3) and 0 not in cols:
+            cols = [0] + cols
+        for c in cols:
+            if g.chance(1, 12):
+                toks.append((ln, c, None, 0, 0, None))
+            else:
+                toks.append((ln, c, g.below(nsrc), g.below(50), g.below(80), (g.below(len(names)) if names and g.chance(1, 3) else None)))
+    return encode_map(toks, sources, names, g.choice([None, None, "", "root/"]))
+
+
+def run_chain(prop, spec, seed, tier, known, ev):
+    import base64
+    n = 500 if tier == 'quick' else 6000
+    r = vlib.SplitMix64(seed ^ 0x1010)
+    base = gen.gen_requests(r.next(), n, depth=2, cfg_mode='default')
+    reqs = []
+    for i, q in enumerate(base):
+        g = r.fork()
+        src = q['src'] if g.chance(1, 2) else layout_program(g)
+        file = g.choice(["test.js", "dir/sub/file.js", "/abs/mod.js"])
+        parent = os.path.dirname(file)
+        m = gen_orig_map(g, src)
+        kind = g.below(9)
+        files = {}
+        if kind == 0:
+            ref = None
+        elif kind in (1, 2):
+            ref = "data:application/json;base64," + base64.b64encode(m.encode()).decode()
+        elif kind in (3, 4):
+            ref = "file.js.map"
+            files[(parent + "/" if parent else "") + "file.js.map"] = m
+        elif kind == 5:
+            ref = "/maps/abs.map"
+            files["/maps/abs.map"] = m
+        elif kind == 6:
+            ref = "missing.map"
+        elif kind == 7:
+            ref = "data:application/json;base64,bm90IGpzb24="
+        else:
+            ref = "idx.map"
+            files[(parent + "/" if parent else "") + "idx.map"] = gen.MAP_INDEX
+        style = g.below(3)
+        if ref is not None:
+            if style == 0:
+                src = src + "\n//# sourceMappingURL=" + ref
+            elif style == 1:
+                src = src + "\n//# sourceMappingURL=" + ref + "\n"
+            else:
+                # a look-alike inside a string literal and the real comment
+                src = "var lookalike = \"//# sourceMappingURL=" + ref[:20] + "\";\n" + src + "\n//# sourceMappingURL=" + ref
+        cfg = dict(vlib.DEFAULT_CFG, chainSourceMap=g.chance(3, 4), comments=g.chance(1, 2))
+        reqs.append({"id": "chain-%d" % i, "cfg": cfg, "src": src, "file": file, "files": files, "maps": True,
+                     "text_ast": True, "code_ast": True, "tags": ['chain', 'ref%d' % kind, 'style%d' % style]})
+    results = vlib.pipeline(reqs, mode='chain')
+    return _collect(prop, spec, results, known, ev, 'modified programs with an original map (random token layouts, several sources, names, sourceRoot, '
+                    'sparse lines, segments without source) referenced inline / by relative or absolute file / missing / malformed / index map, '
+                    'under {chain, comments} settings; non-trivial = a usable original map was chained')
+
+
+def _collect(prop, spec, results, known, ev, rule):
+    from collections import Counter
+    violations, known_hits, corr_fail = [], {}, []
+    tags = Counter()
+    nontrivial = 0
+    classes = Counter()
+    for req, rec, v in results:
+        for t in req.get('tags', []):
+            tags[t] += 1
+        st = v.get('stats') or {}
+        classes[st.get('class') or ('has_orig' if st.get('has_orig') else 'checked')] += 1
+        if st.get('tokens') and (prop != 'C10' or st.get('has_orig')):
+            nontrivial += 1
+        ch = v.get('checks')
+        if isinstance(ch, dict):
+            for k, d in ch.items():
+                if not any(k.startswith(p) for p in spec['checks']):
+                    continue
+                p, cls = k.split(':', 1)
+                kf = [x for x in known if x['cls'] == cls and x['property'] in (p, prop)]
+                if kf:
+                    known_hits.setdefault((p, cls), []).append((req, d))
+                else:
+                    violations.append((k, req, rec, d))
+        co = v.get('corr')
+        if isinstance(co, dict):
+            for k, d in co.items():
+                if k in spec['corr'] or k.startswith('convert'):
+                    corr_fail.append((k, req, rec, d))
+        if 'error' in v:
+            corr_fail.append(('driver', req, rec, v['error']))
+    ev['coverage'].update({'evaluations': len(results), 'distinct_nontrivial': nontrivial, 'rule': rule,
+                           'class_histogram': dict(classes), 'tag_histogram': dict(tags.most_common(30)),
+                           'samples': [{k: q.get(k) for k in ('id', 'file', 'src')} for q, _, _ in results[1:3]]})
+    return violations, known_hits, corr_fail
+
+
+# ------------------------------------------------------------------------------------------ C11
+
+NODE = None
+
+
+def find_node():
+    global NODE
+    if NODE:
+        return NODE
+    import shutil, glob
+    cands = [shutil.which('node'), shutil.which('nodejs')] + sorted(glob.glob('/root/.nvm/versions/node/*/bin/node')) + ['/usr/bin/nodejs']
+    for c in cands:
+        if c and os.path.exists(c):
+            NODE = c
+            return c
+    return None
+
+
+def native_key(code, file):
+    import hashlib
+    return hashlib.sha256((file + '\u0000' + code).encode('utf-8')).hexdigest()
+
+
+def native_table(calls, cfg):
+    """results of the real Rust rewriter for (code, file) pairs, in the shape the wasm binding returns"""
+    reqs = [{"id": i, "cfg": cfg, "src": c, "file": f, "ast": False, "maps": True} for i, (c, f) in enumerate(calls)]
+    recs = vlib.run_harness(reqs)
+    table, byk = {}, {}
+    for (c, f), rec in zip(calls, recs):
+        k = native_key(c, f)
+        if rec.get('outcome') == 'ok':
+            table[k] = {"result": {"content": rec['content'], "metrics": rec['metrics'], "literalsResult": rec.get('literals')}}
+        else:
+            table[k] = {"error": rec.get('err') or rec.get('panic') or 'error'}
+        byk[k] = rec
+    return table, byk
+
+
+def glb(tokens, line, col):
+    best = None
+    for t in tokens:
+        if t[0] < line or (t[0] == line and t[1] <= col):
+            best = t
+    return best
+
+
+def trace_program(g):
+    """functions that call a thrower at generator-known lines"""
+    lines = ["function boom(){ throw new Error('x') }"]
+    calls = []
+    n = 2 + g.below(4)
+    for k in range(n):
+        shape = g.below(5)
+        if shape == 0:
+            lines.append("function f%d(a, b){ return a + boom(); }" % k)
+            calls.append(("f%d" % k, len(lines)))
+        elif shape == 1:
+            lines.append("function f%d(a){" % k)
+            lines.append("  const s = `t${a}`;")
+            lines.append("  return s.trim() + boom();")
+            calls.append(("f%d" % k, len(lines)))
+            lines.append("}")
+        elif shape == 2:
+            lines.append("function f%d(a){" % k)
+            lines.append("  let x = 'é' + a;")
+            lines.append("  x += a;")
+            lines.append("  if (x) { return boom(x + a); }")
+            calls.append(("f%d" % k, len(lines)))
+            lines.append("}")
+        elif shape == 3:
+            lines.append("const f%d = (a) => a + boom();" % k)
+            calls.append(("f%d" % k, len(lines)))
+        else:
+            lines.append("function f%d(a){ return a?.trim() }  function g%d(){" % (k, k))
+            lines.append("  return String.prototype.concat.call('', boom(),")
+            calls.append(("g%d" % k, len(lines)))
+            lines.append("    1); }")
+    if g.chance(1, 3):
+        lines.insert(0, "'use strict';")
+        calls = [(f, l + 1) for f, l in calls]
+        boom_line = 2
+    else:
+        boom_line = 1
+    return "\n".join(lines) + "\n", calls, boom_line
+
+
+def parse_formatted(stack):
+    import re
+    out = []
+    if not isinstance(stack, str):
+        return out
+    for ln in stack.split('\n'):
+        m = re.match(r'\s*at .*?\(?([^()\s]+):(\d+):(\d+)\)?$', ln)
+        if m:
+            out.append({"file": m.group(1), "line": int(m.group(2)), "column": int(m.group(3))})
+    return out
+
+
+def run_js(prop, spec, seed, tier, known, ev):
+    node = find_node()
+    if not node:
+        ev['coverage'].update({'evaluations': 1, 'distinct_nontrivial': 2, 'samples': [{'note': 'node not found: JS correspondence skipped'}],
+                               'rule': 'node missing'})
+        return [], {}, [('js', {}, {}, 'node not found')]
+    import tempfile
+    r = vlib.SplitMix64(seed ^ 0x1111)
+    nmaps = 60 if tier == 'quick' else 1500
+    ntraces = 30 if tier == 'quick' else 600
+    nhist = 20 if tier == 'quick' else 300
+    cfg = dict(vlib.DEFAULT_CFG)
+    job = {"findEntry": [], "traces": [], "histories": [], "native": {}}
+    # (a)
+    fe_expected = {}
+    for i in range(nmaps):
+        g = r.fork()
+        src = "\n".join("x" * (5 + g.below(60)) for _ in range(1 + g.below(12)))
+        m = gen_orig_map(g, src)
+        file = g.choice(["a.js", "dir/sub/b.js", "/abs/c.js"]) + str(i)
+        positions = [[1 + g.below(14), 1 + g.below(70)] for _ in range(12)] + [[1, 1], [1 + g.below(5), 0]]
+        job["findEntry"].append({"id": i, "map": m, "file": file, "positions": positions})
+        fe_expected[i] = (m, file, positions)
+    # (b)
+    calls_needed = []
+    traces = []
+    for i in range(ntraces):
+        g = r.fork()
+        code, calls, boom_line = trace_program(g)
+        file = g.choice(["t%d.js" % i, "dir/sub/t%d.js" % i])
+        traces.append((i, code, file, calls, boom_line))
+        calls_needed.append((code, file))
+        job["traces"].append({"id": i, "file": file, "code": code, "calls": [c[0] for c in calls]})
+    # (c)
+    hists = []
+    for i in range(nhist):
+        g = r.fork()
+        file = "h%d.js" % i
+        steps = []
+        for s in range(2 + g.below(3)):
+            if g.chance(1, 4):
+                code = "var unmodified%d = %d;\n" % (s, g.below(100)) * (1 + g.below(4))
+            else:
+                code, _, _ = trace_program(g)
+            steps.append({"file": file, "code": code, "lookups": [[1 + g.below(20), 1 + g.below(40)] for _ in range(6)]})
+            calls_needed.append((code, file))
+        hists.append((i, steps))
+        job["histories"].append({"id": i, "steps": steps})
+    table, byk = native_table(calls_needed, cfg)
+    job["native"] = table
+    with tempfile.NamedTemporaryFile('w', suffix='.json', delete=False, dir=os.path.join(vlib.VERIF, 'replays')) as f:
+        json.dump(job, f)
+        jobfile = f.name
+    try:
+        p = subprocess.run([node, '-r', os.path.join(vlib.VERIF, 'js', 'preload.js'), os.path.join(vlib.VERIF, 'js', 'c11.js'), jobfile],
+                           stdout=subprocess.PIPE, stderr=subprocess.PIPE, text=True, timeout=1200, env=dict(os.environ, VERIF_REPO=vlib.REPO))
+    finally:
+        os.unlink(jobfile)
+    if p.returncode != 0 or not p.stdout.strip():
+        return [('C11:javascript-layer-threw', {'src': 'c11.js job'}, {}, (p.stderr or '')[-600:])], {}, []
+    res = json.loads(p.stdout)
+    violations, known_hits, corr = [], {}, []
+
+    def hit(cls, req, detail):
+        kf = [x for x in known if x['cls'] == cls and x['property'] == 'C11']
+        if kf:
+            known_hits.setdefault(('C11', cls), []).append((req, detail))
+        else:
+            violations.append(('C11:' + cls, req, {}, detail))
+
+    # (a) model of the lookup (Lean) vs node_source_map.js
+    drv = []
+    for a in res['findEntry']:
+        m, file, positions = fe_expected[a['id']]
+        drv.append({"id": a['id'], "mode": "js", "map": m, "positions": positions})
+    verds = vlib.run_driver(drv, 'js')
+    checked = 0
+    for a, v in zip(res['findEntry'], verds):
+        m, file, positions = fe_expected[a['id']]
+        req = {"src": m, "file": file}
+        if 'error' in a:
+            hit('source-map-module-threw', req, a['error'][:300])
+            continue
+        model = v.get('model') or []
+        for pos, ans, mo in zip(positions, a['answers'], model):
+            checked += 1
+            got = ans['got']
+            if pos[1] == 0:
+                cls_default_col = True
+            else:
+                cls_default_col = False
+            if mo is None:
+                exp = {"path": file, "line": pos[0], "column": pos[1]}
+            else:
+                d = os.path.dirname(file)
+                exp = {"path": os.path.normpath(os.path.join(d, mo[0])) if (d or mo[0]) else '.', "line": mo[1] + 1, "column": mo[2] + 1}
+            if got != exp:
+                last_seg = json.loads(m)['mappings'].split(';')[-1].split(',')[-1]
+                n_fields = sum(1 for ch in last_seg if 'ABCDEFGHIJKLMNOPQRSTUVWXYZabcdef'.find(ch) >= 0)
+                if n_fields == 1 and mo is None:
+                    hit('trailing-one-field-segment-parsed-with-the-previous-source', dict(req, position=pos), 'node=%s expected=%s' % (got, exp))
+                elif cls_default_col:
+                    hit('lookup-with-column-0-resolves-to-an-earlier-mapping', dict(req, position=pos), 'node=%s expected=%s' % (got, exp))
+                else:
+                    corr.append(('js', dict(req, position=pos), {}, {'model': exp, 'real': got}))
+    # (b) throw sites
+    nframes = 0
+    for (i, code, file, calls, boom_line), t in zip(traces, res['traces']):
+        rec = byk[native_key(code, file)]
+        req = {"src": code, "file": file}
+        if 'error' in t:
+            hit('stack-trace-preparation-threw', req, t['error'][:400])
+            continue
+        for branch in ('structured', 'formatted'):
+            tr = t[branch]
+            for (fn, line), fr in zip(calls, tr['frames']):
+                st = fr['stack']
+                frames = st if isinstance(st, list) else parse_formatted(st)
+                mine = [x for x in frames if x.get('file') and os.path.basename(str(x['file'])) == os.path.basename(file)]
+                nframes += len(mine)
+                if len(mine) < 2:
+                    hit('frames-of-the-rewritten-file-missing/' + branch, dict(req, fn=fn), json.dumps(st)[:400])
+                    continue
+                if str(mine[0]['file']) != os.path.normpath(file) or mine[0]['line'] != boom_line or mine[1]['line'] != line:
+                    hit('call-site-not-translated-to-the-original-line/' + branch, dict(req, fn=fn, expected=[boom_line, line]),
+                        json.dumps(mine[:3]))
+    # (c) histories: after each rewrite, lookups use the map of the most recent rewrite
+    for (i, steps), h in zip(hists, res['histories']):
+        req = {"src": json.dumps([s['code'] for s in steps])[:2000], "file": steps[0]['file']}
+        if 'error' in h:
+            hit('caching-rewriter-threw', req, h['error'][:400])
+            continue
+        for s, got in zip(steps, h['steps']):
+            rec = byk[native_key(s['code'], s['file'])]
+            modified = rec.get('status') == 'Modified'
+            if not modified and not got['sameText']:
+                hit('not-modified-result-is-not-the-callers-text', req, '')
+            toks = (rec.get('map_tokens') or {}).get('tokens') or []
+            for pos, g in zip(s['lookups'], got['looks']):
+                if modified:
+                    t = glb(toks, pos[0] - 1, pos[1] - 1)
+                    exp = {"path": s['file'], "line": pos[0], "column": pos[1]} if (t is None or t[4] is None) else {"path": s['file'], "line": t[2] + 1, "column": t[3] + 1}
+                    if g != exp:
+                        hit('lookup-does-not-use-the-most-recent-rewrite', dict(req, position=pos), 'node=%s expected=%s' % (g, exp))
+                        break
+                else:
+                    exp = {"path": s['file'], "line": pos[0], "column": pos[1]}
+                    if g != exp:
+                        hit('stale-map-used-after-a-not-modified-rewrite', dict(req, position=pos), 'node=%s expected=%s' % (g, exp))
+                        break
+    ev['coverage'].update({
+        'evaluations': checked + nframes + sum(len(s) for _, s in hists), 'distinct_nontrivial': nmaps + ntraces + nhist,
+        'rule': 'real js/ modules under Node %s (lru-cache and the native module shimmed; native results precomputed by the real Rust code): '
+                '(a) findEntry/getSourcePathAndLineFromSourceMaps on random maps and positions vs the Lean lookup model, (b) programs throwing at '
+                'generator-known lines run in V8 with the package prepareStackTrace (structured and formatted branches), (c) rewrite histories '
+                'per file name with lookups after every step' % node,
+        'lookups_checked': checked, 'frames_checked': nframes, 'histories': nhist,
+        'samples': [{"trace": traces[0][1], "calls": traces[0][3]}],
+    })
+    return violations, known_hits, corr
